@@ -362,7 +362,9 @@ def _ops(fd, case, irregular=True):
         _try(out, "tb_grid", lambda: _vals(fd.to_basis(penalty=pen, **pskw).to_grid()))
     _try(out, "smooth_ps_default", lambda: _vals(fd.smooth()))
     _try(out, "mean_lp", lambda: _vals(fd.mean(method_smoothing="LP", bandwidth=bw, **lpkw)))
-    _try(out, "mean_lp_plain", lambda: _vals(fd.mean(method_smoothing="LP", bandwidth=bw)))
+    with _Capture() as cap:
+        _try(out, "mean_lp_plain", lambda: _vals(fd.mean(method_smoothing="LP", bandwidth=bw)))
+        out["mean_inputs"] = [dict(x=c_["x"], y=c_["y"]) for c_ in cap.lp[:1]]
     with _Capture() as cap:
         _try(out, "mean_ps", lambda: _vals(fd.mean(method_smoothing="PS", penalty=pen, **pskw)))
         out["mean_ps_fit"] = [dict(x=f_["x"], y=f_["y"], w=f_["w"]) for f_ in cap.ps[:1]]
@@ -965,6 +967,14 @@ def _oracle_enc(case, impl):
         if isinstance(k_, int) and k_ > 0:
             bad("standardize_content", key_, f"NaN encoding: {k_} samples MISSING in the data hold a number (0) after standardize(): "
                 "the result has observations the data do not have (the ragged encoding cannot)", ["standardize_fills_missing"])
+    # what the mean smoother receives: every observed sample (the binned approximation only above 2000 pooled samples)
+    want_pairs = sorted((float(t[j]), float(V[i][j])) for i in range(len(V)) for j in range(len(t)) if M[i][j])
+    if len(want_pairs) <= 2000:
+        for e, o_ in (("NaN", A), ("ragged", B)):
+            mi = (o_.get("mean_inputs") or [None])[0]
+            if mi is not None and sorted(zip(mi["x"], mi["y"])) != want_pairs:
+                bad("mean_pooling", "mean_lp", f"{e} encoding: the mean smoother received {len(mi['x'])} samples, the data have {len(want_pairs)} "
+                    "(every observed sample must be pooled; per-point averages only above 2000 samples)")
     for nm, r in (impl.get("mixed") or {}).items():
         if isinstance(r, str):
             bad("arithmetic_content", "arith_" + nm, f"NaN encoding, operands missing different samples: {r}")
